@@ -45,6 +45,7 @@ type cutResult struct {
 
 func runCut(t *testing.T, cc cutCase) (cr cutResult) {
 	spec := proxies[cc.Proxy]
+	engine.GCPoint(1)
 	synctest.Test(t, func(t *testing.T) {
 		st := bases[cc.Base]()
 		srv := newServer(t, st.objects())
